@@ -139,6 +139,14 @@ impl IotaDID {
   pub fn try_from_core(did: CoreDID) -> Result<Self> {
     Self::check_validity(&did)?;
 
+    // `parse` lower-cases its input, but a `CoreDID` can be handed in with upper-case hex digits in its tag.
+    // Equality is decided on the string, so the normal form has to be lower-case on every route.
+    let did = if did.as_str().bytes().any(|byte| byte.is_ascii_uppercase()) {
+      CoreDID::parse(did.as_str().to_ascii_lowercase())?
+    } else {
+      did
+    };
+
     Ok(Self(Self::normalize(did)))
   }
 
